@@ -125,8 +125,11 @@ def run_filereader(rng, name, opts, use_index_entry):
             rel = rng.choice(sorted(files))
             index = [[name, os.path.basename(rel)]] if rng.random() < 0.7 else [['OTHER-MIB', os.path.basename(rel)]]
             with open(os.path.join(root, '.index'), 'w') as f:
+                # (a line that does not hold a module name and a file name maps nothing)
+                f.write(rng.choice(['', '\n', '   \n', 'loneword\n', '# comment\n\n']))
                 for k, v in index:
                     f.write('%s %s\n' % (k, v))
+                f.write(rng.choice(['', '\n', 'trailing-word\n']))
         limit = rng.choice([None, None, 3000, 3001, 20])
         kw = {} if limit is None else {'maxMibSize': limit}
         large = [] if limit is None else [i for i, c in enumerate(CONTENTS) if len(c) >= limit]
@@ -152,10 +155,10 @@ def run_filereader(rng, name, opts, use_index_entry):
             exact = data == decode(raw) and os.path.basename(rel) == info.file and os.stat(rel)[8] == info.mtime
         except error.PySmiReaderFileNotFoundError:
             got, exact = 'notfound', True
-        except IndexError:
-            got, exact = 'indexerror', True
         except error.PySmiError:
             got, exact = 'toolarge', True
+        except Exception:
+            got, exact = 'indexerror', True           # any exception that is not the package's
         req = dict(opts, op='filereader', name=name, exts=EXTS, index=index, useIndex=True, dirs=listing, large=large)
         present = {os.path.basename(k) for k in files}
         return got, exact, req, present, index
@@ -195,15 +198,31 @@ def gen_archive(rng, name, depth, state):
                 path = rng.choice(['dir/', 'a/b/'])
                 z.writestr(zipfile.ZipInfo(path, (2020, 1, 1, 0, 0, 0)), b'')
                 spec.append(['dir', path])
+            elif r < 0.40:
+                # a member that is named like an archive and is none (empty, text, a cut-off archive): it hides nothing but
+                # itself; for the model it is an entry that is skipped, like a directory
+                path = rng.choice(['', 'nested/']) + 'broken%d.zip' % state['n']
+                state['n'] += 1
+                z.writestr(zipfile.ZipInfo(path, (2020, 1, 1, 0, 0, 0)), JUNK_ZIP)
+                spec.append(['dir', path])
             else:
                 fn = rng.choice(pool) if rng.random() < 0.7 else rng.choice([name + 'X', 'README', 'x' + name])
                 path = rng.choice(['', 'mibs/', 'a/b/']) + fn
                 cid = rng.randrange(len(CONTENTS))
                 dt = (2015 + rng.randint(0, 8), rng.randint(1, 12), rng.randint(1, 28), rng.randint(0, 23), rng.randint(0, 59),
                       2 * rng.randint(0, 29))
+                if rng.random() < 0.06:
+                    # a zeroed DOS time stamp (month 0, day 0): no such date, the member is as old as can be
+                    z.writestr(zipfile.ZipInfo(path, ZERO_DATE), CONTENTS[cid])
+                    spec.append(['file', path, cid, 0])
+                    continue
                 z.writestr(zipfile.ZipInfo(path, dt), CONTENTS[cid])
                 spec.append(['file', path, cid, int(zmtime(dt))])
     return spec, buf.getvalue()
+
+
+JUNK_ZIP = b'PK\x03\x04 this only looks like an archive'
+ZERO_DATE = (1980, 0, 0, 0, 0, 0)
 
 
 def leaves(spec):
@@ -237,7 +256,9 @@ def run_zipreader(rng, name, opts, more=()):
                 got = {'alias': info.name, 'file': info.file, 'content': cands, 'mtime': int(info.mtime)}
             except error.PySmiReaderFileNotFoundError:
                 got = 'notfound'
-            except IndexError:
+            except error.PySmiError:
+                got = 'notfound'
+            except Exception:
                 got = 'indexerror'
             req = dict(opts, op='zipreader', name=nm, exts=EXTS, members=spec,
                        empty=[i for i, c in enumerate(CONTENTS) if not c])
@@ -251,7 +272,9 @@ def run_zipreader(rng, name, opts, more=()):
 
 URLS = ['/tmp/mibs', 'file:///usr/share/snmp/mibs', '/data/mibs.zip', 'file:///data/mibs.zip', 'zip:///data/mibs.ZIP',
         'zip:///data/dir', 'mibs.ZIP', 'relative/dir', 'http://mibs.example.com/asn1/@mib@', 'https://h/x.zip',
-        'ftp://host/pub/@mib@', 'sftp://u:p@host:2222/x/@mib@', 'gopher://x/y', 'telnet://h/@mib@.zip']
+        'ftp://host/pub/@mib@', 'sftp://u:p@host:2222/x/@mib@', 'gopher://x/y', 'telnet://h/@mib@.zip',
+        # the archive named where a host would stand (the form the documentation gives)
+        'zip://mymibs.zip', 'zip://dir/sub/mymibs.ZIP', 'zip://mymibs', 'zip://relative/dir']
 
 
 def run_urls(ctx):
@@ -272,6 +295,14 @@ def run_urls(ctx):
             kind = 'unsupported' if 'Unsupported URL scheme' in str(e) else 'error:' + str(e)
         pr = urlparse.urlparse(u)
         path = url2pathname(pr.path) if pr.scheme in ('', 'file', 'zip') else pr.path
+        if pr.scheme == 'zip' and pr.netloc:
+            path = url2pathname(pr.netloc + pr.path)
+        if kind in ('file', 'zip'):
+            # ... and the reader is made for that path
+            have = getattr(rs[0], '_name', None) if kind == 'zip' else getattr(rs[0], '_path', None)
+            if have != (path if kind == 'zip' else os.path.normpath(path)):
+                res.oracle_failures.append({'key': 'url-kind', 'what': 'URL %s gives a %s reader on %r, the URL names %r' % (u, kind, have, path),
+                                            'input': {'url': u, 'want_path': path}})
         reqs.append({'op': 'urlkind', 'scheme': pr.scheme, 'path': path})
         metas.append((u, kind))
         res.case(('url', u), True)
@@ -334,7 +365,7 @@ def run(ctx):
                 res.oracle_failures.append({'key': 'index-precedence', 'what': '.index maps %s to %s but %s was returned' % (
                     name, index[0][1], got['file']), 'input': {'filereader': req}})
         elif got == 'indexerror':
-            res.oracle_failures.append({'key': 'raises', 'what': 'FileReader.getData(%s) raised IndexError under %r' % (name, sorted(opts.items())),
+            res.oracle_failures.append({'key': 'raises', 'what': 'FileReader.getData(%s) raised an exception that is not the package error under %r' % (name, sorted(opts.items())),
                                         'input': {'filereader': req}})
         elif got == 'notfound' and not indexed:
             hit = present & doc_variants(name, opts['fuzzy'], opts=opts)
@@ -407,10 +438,10 @@ def build_zip(spec):
     with zipfile.ZipFile(buf, 'w') as z:
         for m in spec:
             if m[0] == 'file':
-                dt = datetime.datetime.fromtimestamp(m[3]).timetuple()[:6]
+                dt = datetime.datetime.fromtimestamp(m[3]).timetuple()[:6] if m[3] else ZERO_DATE
                 z.writestr(zipfile.ZipInfo(m[1], dt), CONTENTS[m[2]])
             elif m[0] == 'dir':
-                z.writestr(zipfile.ZipInfo(m[1], (2020, 1, 1, 0, 0, 0)), b'')
+                z.writestr(zipfile.ZipInfo(m[1], (2020, 1, 1, 0, 0, 0)), b'' if m[1].endswith('/') else JUNK_ZIP)
             else:
                 z.writestr(zipfile.ZipInfo(m[1], (2020, 1, 1, 0, 0, 0)), build_zip(m[2]))
     return buf.getvalue()
@@ -429,6 +460,9 @@ def replay(payload):
             kind = {'FileReader': 'file', 'ZipReader': 'zip', 'HttpReader': 'http', 'FtpReader': 'ftp'}.get(type(rs[0]).__name__, '?')
         except error.PySmiError as e:
             kind = 'error'
+        if 'want_path' in inp:
+            have = getattr(rs[0], '_name', None) or getattr(rs[0], '_path', None)
+            return {'fails': have not in (inp['want_path'], os.path.normpath(inp['want_path'])), 'what': have}
         return {'fails': 'want' in inp and kind != inp['want'], 'what': kind}
     base = scratch_dir()
     try:
@@ -455,8 +489,10 @@ def replay(payload):
                 shadowed = {b for b, c, m in lv if not CONTENTS[c]}
                 hit = ({b for b, c, m in lv if CONTENTS[c]} - shadowed) & doc_variants(req['name'], req['fuzzy'], opts=req)
                 return {'fails': bool(hit), 'what': 'not found although %s exist' % sorted(hit)}
-            except IndexError:
-                return {'fails': True, 'what': 'IndexError'}
+            except error.PySmiError:
+                raise
+            except Exception as e:
+                return {'fails': True, 'what': type(e).__name__}
         req = inp['filereader']
         from pysmi.reader.localfile import FileReader
         root = os.path.join(base, 'mibs')
@@ -469,6 +505,7 @@ def replay(payload):
                 os.utime(os.path.join(d, fn), (mt, mt))
         if req['index']:
             with open(os.path.join(root, '.index'), 'w') as f:
+                f.write('\nloneword\n')
                 for k, v in req['index']:
                     f.write('%s %s\n' % (k, v))
         kw = {}
@@ -488,9 +525,9 @@ def replay(payload):
         except error.PySmiReaderFileNotFoundError:
             hit = present & doc_variants(req['name'], req['fuzzy'], opts=req)
             return {'fails': bool(hit) and not indexed, 'what': 'not found although %s exist' % sorted(hit)}
-        except IndexError:
-            return {'fails': True, 'what': 'IndexError'}
         except error.PySmiError:
             return {'fails': False, 'what': 'reader error (size limit)'}
+        except Exception as e:
+            return {'fails': True, 'what': type(e).__name__}
     finally:
         shutil.rmtree(base, ignore_errors=True)
